@@ -21,9 +21,13 @@ def run(F, rep):
     rep.run(dt_compress.graph_driver_table, F, rep, "C09.5")
     # "no extension left pointing at a removed or absent node": the pruning the driver relies on, and the link resolution under it
     rep.run(dt_graph.find_link_table, F, rep, "C09.6")
+    rep.run(dt_graph.is_compressed_sound_table, F, rep, "C09.6")
     rep.run(dt_graph.finish_tables, F, rep, "C09.6")
     rep.run(dt_graph.get_valid_exts_table, F, rep, "C09.6")
     rep.run(dt_graph.fix_exts_table, F, rep, "C09.6")
     rep.run(dt_graph.sequence_of_path_table, F, rep, "C09.6")
     # re-compression identifies nodes by their terminal k-mers: Vmer::get_kmer on views of the packed store
     rep.run(common.run_store_kmer_lemmas, F, rep, "C09.7")
+    # "compressing the one-k-mer-per-node graph gives the same partition as compressing the k-mer table directly": the entry points of the
+    # k-mer route, including the one that finds the extensions itself
+    rep.run(dt_compress.entry_points_table, F, rep, "C09.8")
